@@ -492,7 +492,7 @@ func cmdCommit(ss *serverSession) {
 }
 
 func cmdConnections(ss *serverSession) {
-	ss.PutBool(true).PutVal(connections())
+	ss.PutBool(true).PutVal(ss.sc.dbms.Connections())
 }
 
 func connections() *SuObject {
@@ -697,7 +697,7 @@ func cmdKeys(ss *serverSession) {
 
 func cmdKill(ss *serverSession) {
 	sessionId := ss.GetStr()
-	n := kill(sessionId)
+	n := ss.sc.dbms.Kill(sessionId)
 	ss.PutBool(true).PutInt(n)
 }
 
@@ -860,7 +860,7 @@ func cmdTimestamp(ss *serverSession) {
 }
 
 func cmdToken(ss *serverSession) {
-	tok := Token()
+	tok := ss.sc.dbms.Token()
 	ss.PutBool(true).PutStr(tok)
 }
 
